@@ -19,6 +19,9 @@ SKELETONS = {
     "FractionSlots": (2, "_fraction(ps)"),
     "BinFlows": (3, "_binflows(ps)"),
     "NanflowsOfSiblings": (3, "_nanflows(ps)"),
+    "LabelEd": (3, "H.Label.ed(0.0, a=ps[0], b=ps[1], c=ps[2])"),
+    "IndexEd": (3, "H.Index.ed(0.0, ps[0], ps[1], ps[2])"),
+    "BranchEdOfLabelEd": (2, "H.Branch.ed(0.0, H.Label.ed(0.0, x=ps[0]), H.UntypedLabel.ed(0.0, y=ps[1]))"),
     "NanflowAndCut": (2, "_nanflow_and_cut(ps)"),
 }
 SHARED = {
@@ -49,6 +52,31 @@ def _binflows(ps):
     t.underflow, t.overflow, t.nanflow = ps[0], ps[1], ps[2]
     return t
 '''
+
+
+def node_and_descendant(kind, prefilled, timeout=40):
+    """one object installed as a child AND one of its own descendants installed next to it (no cycle: the descendant is
+    reachable twice, once through its parent and once directly)"""
+    mk = {"Select": "H.Select(qb, H.Bin(2, 0.0, 2.0, qx))", "Label": "H.Label(a=H.Sum(qx), b=H.Sum(qy))",
+          "Bin": "H.Bin(2, 0.0, 2.0, qx, H.Sum(qy))", "Fraction": "H.Fraction(qb, H.Sum(qx))"}[kind]
+    desc = {"Select": "p.cut", "Label": "p.get('a')", "Bin": "p.values[1]", "Fraction": "p.numerator"}[kind]
+    body = f"""
+d0 = (0.5, 0.5, "a", 1.0)
+d = (x, 0.5, "a", 1.0)
+p = {mk}
+{"p.fill(d0)" if prefilled else ""}
+c = {desc}
+t = H.Branch(p, c) if k == 0 else (H.Branch(c, p) if k == 1 else H.Index(H.Select(qb, c), H.Select(qb, p)))
+before = J(t)
+r = raises(t.fill, d)
+if r != "ContainerException": return "descendant-shared-with-its-ancestor-not-detected:" + str(r)
+if not jeq(J(t), before): return "state-changed-before-detection"
+r = raises(t.fill, d)
+if r != "ContainerException": return "not-detected-on-later-fill:" + str(r)
+"""
+    return Harness(f"C16/descendant/{{}}/{{}}".format(kind, "prefilled" if prefilled else "fresh"), [("k", "int"), ("x", "float")],
+                   "0 <= k <= 2 and -2.0 <= x < 2.0", body, timeout=timeout, setup=C16_SETUP, tree=mk,
+                   bounds="a node and one of its own descendants installed side by side (3 arrangements by selector); symbolic datum; " + ("ancestor filled once before" if prefilled else "fresh"))
 
 
 def shared(sk, leaf, prefilled, timeout=40):
@@ -141,6 +169,9 @@ def harnesses(tier):
                 out.append(shared(sk, leaf, False))
             if sk != "UnderBin":
                 out.append(shared(sk, leaf, True))
+    for kind in ("Select", "Label", "Bin", "Fraction"):
+        out.append(node_and_descendant(kind, False))
+        out.append(node_and_descendant(kind, True))
     for n, e in NEGATIVE.items():
         out.append(negative(n, e))
     return out
